@@ -18,7 +18,7 @@ from collections.abc import Callable, Collection, Container, Iterable, Iterator,
 from types import FunctionType, MethodType
 from typing import Any, Generic, TypeVar, cast
 
-from kopf._cogs.structs import dicts, ids, references
+from kopf._cogs.structs import dicts, diffs, ids, references
 from kopf._core.actions import execution
 from kopf._core.intents import causes, filters, handlers, piggybacking
 
@@ -560,9 +560,12 @@ def _matches_field_changes(
     absent = _UNSET.token  # or any other identifyable object
     old = dicts.resolve(cause.old, handler.field, absent)
     new = dicts.resolve(cause.new, handler.field, absent)
+    # The values are compared the same way as for the diffs: a boolean never equals a number
+    # (in Python, `True == 1`), so `1` changed to `true` is a change of the field too.
+    changed = (old is not new) if (old is absent or new is absent) else bool(diffs.diff(old, new)) or old != new
     return ((
         not handler.field_needs_change or
-        old != new  # ... or there IS a change.
+        changed  # ... or there IS a change.
     ) and (
         (handler.old is None) or
         (handler.old is filters.ABSENT and old is absent) or
